@@ -10,6 +10,7 @@
 -/
 import ILV.Drv.Common
 import ILV.Model.Incr
+import ILV.Model.IncrFixed
 namespace ILV.Drv.C18
 open ILV ILV.C18
 
@@ -232,6 +233,21 @@ def hist : Handler := fun args impl =>
   | ["h"] => { model := "", spec := "na", nt := false }
   | _ => badReq
 
-def handlers : List (String × Handler) := [("c18.hist", hist)]
+/-- manual tool (never generated by the harness): run the model of the PROPOSED REPAIR
+    (`ILV.C18.Fixed.step`) over a history and report the first query whose snapshot answer differs
+    from the fresh answer. `sed 's/^c18.hist/c18.fixcheck/' work/C18/cases.txt | ilvd`. -/
+def fixcheck : Handler := fun args _ =>
+  match args with
+  | _ :: "|" :: toks =>
+    match optMapM parseStep (splitSteps toks []) with
+    | none => badReq
+    | some steps =>
+      { model := "", nt := false,
+        spec := match Fixed.firstVisible init steps 0 with
+          | none => specOk
+          | some k => specFail "repair_design" s!"query-at-step-{k}" }
+  | _ => badReq
+
+def handlers : List (String × Handler) := [("c18.hist", hist), ("c18.fixcheck", fixcheck)]
 
 end ILV.Drv.C18
